@@ -17,7 +17,10 @@ RULE = ("grammar-generated BED/BED6/narrowPeak/VCF/VCF-with-genotypes/SAM/GTF/FA
         "records, unequal record lengths, non-canonical valid text: leading zeros, '+5', '1e3', CRLF, optional SAM tags, FASTQ "
         "'+name' lines, VCF sample columns) x random programs of selections (slice with step/negative bounds, boolean mask, int "
         "list with repeats and negatives, out-of-range -> IndexError), binary and n-ary np.concatenate, chunked read + "
-        "concatenate, in-between writes (in-place compaction) x optional replacement of a subset of the entry type's fields; "
+        "concatenate, in-between writes (in-place compaction) x optional replacement of a subset of the entry type's fields at the end "
+        "or INSIDE the program (operands of a concatenate with different replaced-field sets); a fixed family on a 7-record table of "
+        "every format: a plain slice right after a non-contiguous selection with no write in between (d[::2][1:3], d[mask][:3], "
+        "d[[4,0,2,6]][1:] ...), then written / concatenated / replaced, LF and CRLF; "
         "observable = bytes written by bnp.open(out,'w').write(result). Non-trivial = program has >= 2 steps and the selection "
         "is a proper/re-ordered/repeated subset, or >= 1 replaced field")
 EXHAUSTIVE = {"quick": False, "thorough": False}
